@@ -15,6 +15,8 @@ from pbt.runner import Disc
 def build_error(e: Dict[str, Any]):
     from pjrpc.common import UNSET
     cls = he.BY_NAME[e['cls']]
+    if cls is he.QuotaError:
+        return cls(e['data']['value']['limit'])
     return cls(code=e['code'], message=e['message'], data=UNSET if 'absent' in e['data'] else e['data']['value'])
 
 
